@@ -8,6 +8,8 @@ import DimodProofs.CqmFold
 import DimodProofs.CqmFeasible
 import DimodProofs.DqmAdj
 import DimodProofs.DqmEnergy
+import DimodProofs.IneqCoded
+import DimodProofs.DqmIneq
 
 /-! # C16 — constraint-to-penalty conversions penalise exactly the violating assignments
 
@@ -173,6 +175,78 @@ theorem ineq_refuses_only_infeasible (terms : List (Label × Int)) (c lb ub : In
     (ineqPlan (terms.map (·.2)) c lb ub = .infeasible → ¬ Feasible z terms c lb ub)
     ∧ (ineqPlan (terms.map (·.2)) c lb ub = .skip → Feasible z terms c lb ub) :=
   ineq_plan_refusal terms c lb ub z hz
+
+/-! ## the two `add_linear_inequality_constraint`s end to end, as coded -/
+
+/-- **which branch is taken** — the conditions of the code, on the bias list of *all* terms (for the DQM:
+    of all `(variable, case, bias)` triples, repeated pairs included): `tu / tl` = sum of the positive /
+    negative biases, `ub_c = min(tu, ub − c)`, `lb_c = max(tl, lb − c)`.  Skip iff `tu ≤ ub_c ∧ tl ≥ lb_c`;
+    else `ValueError` iff `ub_c < lb_c`; else the equality short-cut iff the *tightened* range is empty
+    (`ub_c = lb_c`, not `lb = ub`); else slack for `0 … ub_c − lb_c`. -/
+theorem ineq_plan_as_coded (coeffs : List Int) (c lb ub : Int) (tu tl ubc lbc : Int)
+    (htu : tu = sumPos coeffs) (htl : tl = sumNeg coeffs) (hubc : ubc = min tu (ub - c)) (hlbc : lbc = max tl (lb - c)) :
+    (ineqPlan coeffs c lb ub = .skip ↔ (tu ≤ ubc ∧ tl ≥ lbc))
+    ∧ (ineqPlan coeffs c lb ub = .infeasible ↔ (¬ (tu ≤ ubc ∧ tl ≥ lbc) ∧ ubc < lbc))
+    ∧ (∀ u, ineqPlan coeffs c lb ub = .equality u ↔ (¬ (tu ≤ ubc ∧ tl ≥ lbc) ∧ ubc = lbc ∧ u = ubc))
+    ∧ (∀ u l S, ineqPlan coeffs c lb ub = .slack u l S ↔
+        (¬ (tu ≤ ubc ∧ tl ≥ lbc) ∧ lbc < ubc ∧ u = ubc ∧ l = lbc ∧ (S : Int) = ubc - lbc)) :=
+  Pen.ineq_plan_as_coded coeffs c lb ub tu tl ubc lbc htu htl hubc hlbc
+
+/-- the slack labels `slack_<label>_<j>` of the BQM method are pairwise different -/
+theorem slack_labels_distinct (label : String) (S : Nat) : (slackLabels label S).Nodup := slackLabels_nodup label S
+
+/-- **`BQM.add_linear_inequality_constraint` end to end** (`Pen.bqmIneq`: planning, slack labels and
+    coefficients, the equality constraint on `terms + slack_terms` with constant `−ub_c`), BINARY model,
+    `cross_zero=False`, integer data, `λ ≥ 0` — every outcome:
+    skip ⇒ every 0/1 sample feasible; `ValueError` ⇒ none feasible; otherwise the added energy is ≥ 0, is ≥ λ
+    at infeasible samples for all slack bits, and can be made 0 by the returned slack bits alone at
+    feasible samples (equality short-cut: no slack, 0 exactly on the feasible samples).  The returned slack
+    labels are pairwise distinct; hypothesis: they are not variables of `terms`. -/
+theorem bqm_inequality_as_coded (label : String) (terms : List (Label × Int)) (lam : Rat) (hlam : 0 ≤ lam) (c lb ub : Int)
+    (hfresh : ∀ S, ∀ t ∈ terms, t.1 ∉ slackLabels label S) :
+    match bqmIneq label terms lam c lb ub false with
+    | .skipped => ∀ z, Bin01 z → Feasible z terms c lb ub
+    | .raises => ∀ z, Bin01 z → ¬ Feasible z terms c lb ub
+    | .err => False
+    | .ok bag sl =>
+      (sl.map (·.1)).Nodup ∧ (∀ t ∈ terms, t.1 ∉ sl.map (·.1))
+      ∧ ∀ z, Bin01 z →
+        0 ≤ evalBag (toRat z) bag
+        ∧ (¬ Feasible z terms c lb ub → lam ≤ evalBag (toRat z) bag)
+        ∧ (Feasible z terms c lb ub →
+            ∃ z', Bin01 z' ∧ (∀ v, v ∉ sl.map (·.1) → z' v = z v) ∧ evalBag (toRat z') bag = 0) :=
+  bqmIneq_spec label terms lam hlam c lb ub hfresh
+
+/-- the cases of the slack variables the DQM method creates (log2: one two-case variable per coefficient;
+    linear: one variable with the cases `0 … S`) contribute exactly the totals `0 … S` -/
+theorem dqm_slack_cases_cover (label method : String) (hm : method = "log2" ∨ method = "linear") (ubc lbc : Int) (S : Nat) (hS : 1 ≤ S) :
+    let sv := dqmSlack label method ubc lbc S false
+    (∀ sc, ValidSample (sv.map (·.ncases)) sc → ∃ t : Nat, t ≤ S ∧ slackValI sv sc = (t : Int))
+    ∧ (∀ t : Nat, t ≤ S → ∃ sc, ValidSample (sv.map (·.ncases)) sc ∧ slackValI sv sc = (t : Int)) :=
+  dqmSlack_covers label method hm ubc lbc S hS
+
+/-- **`DQM.add_linear_inequality_constraint` on DQM samples** (`Pen.dqmIneq`: planning on the bias list of all
+    triples — repeated `(variable, case)` pairs included —, the slack variables with their cases, the
+    equality constraint on `terms + slack_terms`), log2 / linear, `cross_zero=False`, integer data, `λ ≥ 0`.
+    `DFeas s` = `lb ≤ Σ bias·[s(v) = case] + c ≤ ub` at the sample `s` of the existing variables; `dqmPen` =
+    energy added at the one-hot indicator of the extended sample `s ++ sc` (`sc` = cases of the slack
+    variables).  Skip ⇒ every sample feasible; `ValueError` ⇒ none; otherwise `dqmPen ≥ 0` for every `sc`,
+    `≥ λ` for every `sc` at infeasible `s`, `= 0` for some `sc` at feasible `s`.
+    (`dqm_energies_as_coded` / `dqm_wellformed_preserved` carry this to what `energies()` reports.) -/
+theorem ineq_penalty_zero_iff_dqm_samples (d : Dqm) (hvt : d.bq.vt = .binary) (method : String) (hm : method = "log2" ∨ method = "linear")
+    (label : String) (terms : List (Nat × Nat × Int)) (hterms : ∀ t ∈ terms, t.1 < d.ncases.length)
+    (lam : Rat) (hlam : 0 ≤ lam) (c lb ub : Int) :
+    match dqmIneq d method label terms lam c lb ub false with
+    | .skipped => ∀ s, ValidSample d.ncases s → DFeas terms c lb ub s
+    | .raises => ∀ s, ValidSample d.ncases s → ¬ DFeas terms c lb ub s
+    | .err => True
+    | .ok d' sv =>
+      d'.ncases = d.ncases ++ sv.map (·.ncases)
+      ∧ ∀ s, ValidSample d.ncases s →
+        (∀ sc, ValidSample (sv.map (·.ncases)) sc →
+            0 ≤ dqmPen d d' (s ++ sc) ∧ (¬ DFeas terms c lb ub s → lam ≤ dqmPen d d' (s ++ sc)))
+        ∧ (DFeas terms c lb ub s → ∃ sc, ValidSample (sv.map (·.ncases)) sc ∧ dqmPen d d' (s ++ sc) = 0) :=
+  dqmIneq_spec d hvt method hm label terms hterms lam hlam c lb ub
 
 /-! ## `binary_encoding` -/
 
